@@ -598,7 +598,7 @@ func AsExplicitRelativePath(path string) string {
 // directory, and converts the path to Unix path.
 func AsRelativePath(path string) string {
 	cleanedPath := strings.TrimLeft(ToNixPath(path), "/")
-	if len(cleanedPath) > 1 && strings.HasSuffix(path, "/") {
+	if cleanedPath != "" && cleanedPath != "." && strings.HasSuffix(path, "/") {
 		return cleanedPath + "/"
 	}
 	return cleanedPath
